@@ -234,6 +234,24 @@ pub fn run(args: &[String]) -> i32 {
                 let killed = rc.is_none();
                 let (load, detail) = classify(&path, old.as_ref(), &new);
                 o.line(&json!({"a": "Crash", "at": at, "partial": partial, "killed": killed, "load": load, "detail": detail}));
+                // life goes on in the SAME directory (whatever the dead writer left behind is still there):
+                // the next save -- of a snapshot shorter than both -- must succeed and be read back in full
+                let small = {
+                    let mut s = RetainSnapshot::default();
+                    s.insert("snapshot_id", Value::ULInt(9_000_000 + at * 1000 + partial));
+                    s
+                };
+                let rec = std::panic::catch_unwind(|| {
+                    FileRetainStore::new(&path).store(&small).map_err(|e| format!("store: {e}"))?;
+                    let back = FileRetainStore::new(&path).load().map_err(|e| format!("load: {e}"))?;
+                    if back == small { Ok(()) } else { Err(format!("load returned {} values", back.values().len())) }
+                });
+                let (ok, why) = match rec {
+                    Ok(Ok(())) => (true, String::new()),
+                    Ok(Err(e)) => (false, e),
+                    Err(_) => (false, "panic".into()),
+                };
+                o.line(&json!({"a": "Recover", "at": at, "partial": partial, "ok": ok, "detail": why}));
             }
         }
     }
